@@ -59,8 +59,8 @@ let parse_obs o =
       { o_rc = z_of_int (int_of_string rc); o_an = bytes_of_hex an; o_calls = cs; o_out = ws; o_pipes = ps; o_nreads = nat_of_int nr }
   | _ -> failwith "obs"
 
-(* contract of net_readline(64, ...): between 1 and 64 octets per call *)
-let pre_reads s0 = List.for_all (function RdChunk b -> let n = List.length b in n >= 1 && n <= 64 | RdErr _ -> true) s0.rds
+(* contract of net_readline(64, ...): between 1 and 64 octets per call, or -1 with errno set (read_ok in Proofs/AuthProofs.v) *)
+let pre_reads s0 = List.for_all (function RdChunk b -> let n = List.length b in n >= 1 && n <= 64 | RdErr e -> int_of_n e <> 0) s0.rds
 
 let spec fs obs =
   let (cfg, an0, linein, mode, v, s0, _) = parse fs in
